@@ -2,8 +2,63 @@
    Property theorems only; proofs in ConcProofs.v. Partial: see the note below. *)
 From Coq Require Import List ZArith NArith Bool.
 From Verif Require Import Conc ConcProofs.
-From Verif Require ConcTrace ConcTraceProofs.
+From Verif Require ConcTrace ConcTraceProofs ConcInd ConcTraceInd.
 Import ListNotations.
+
+(* ---- for EVERY number of child batches and every schedule (induction, ConcInd.v) ---------- *)
+
+(* Every state reachable under Exec's consumer loop, with cancellation at any moment:
+   a successful return carries the complete result, the channel is within its capacity,
+   and a state without successor is final - Exec has returned, the producer and the
+   drain goroutine have terminated, the channel is closed and empty (no deadlock, no leak). *)
+Theorem C14_operator_safe_for_every_number_of_batches : forall total s, ConcInd.reach total s ->
+  (cons s = CRetOk -> received s = total) /\ length (buf s) <= cap
+  /\ (next_states true s = [] -> ConcInd.final s).
+Proof. exact ConcInd.operator_safe_unbounded. Qed.
+Print Assumptions C14_operator_safe_for_every_number_of_batches.
+
+(* the same for a consumer that drives the operator directly (no deferred cancel) *)
+Theorem C14_operator_safe_for_every_number_of_batches_raw : forall total s, ConcInd.reach_raw total s ->
+  (cons s = CRetOk -> received s = total) /\ length (buf s) <= cap
+  /\ (steps true s = [] -> ConcInd.final s).
+Proof. exact ConcInd.operator_safe_unbounded_raw. Qed.
+Print Assumptions C14_operator_safe_for_every_number_of_batches_raw.
+
+(* Queries never hang: every execution (any schedule, fair or not) has at most 6*total+15
+   transitions, and if it cannot be extended it has ended in the final state. *)
+Theorem C14_every_execution_terminates : forall total l,
+  ConcInd.chain (next_states true) (init total) l ->
+  length l <= 6 * total + 15 /\
+  (next_states true (last l (init total)) = [] -> ConcInd.final (last l (init total))).
+Proof. exact ConcInd.every_execution_terminates_final. Qed.
+Print Assumptions C14_every_execution_terminates.
+
+(* Cancellation is prompt: once the context is cancelled at most 22 further transitions are
+   possible, however many batches the child could still produce. *)
+Theorem C14_cancellation_is_prompt : forall total s l,
+  ConcInd.reach total s -> done_ s = true -> ConcInd.chain (next_states true) s l -> length l <= 22.
+Proof. exact ConcInd.cancellation_is_prompt. Qed.
+Print Assumptions C14_cancellation_is_prompt.
+
+(* The labelled system the recorded logs are checked against refines the transition system for
+   every number of batches, and the acceptance check only follows its steps: a log that is
+   accepted is explained by a run whose states are reachable and satisfy the statements above. *)
+Theorem C14_labelled_system_refines_for_every_number_of_batches : forall total x,
+  ConcTraceInd.lreach total x -> ConcInd.reach_raw total (ConcTrace.base x).
+Proof. exact ConcTraceInd.labelled_reach_refines. Qed.
+Print Assumptions C14_labelled_system_refines_for_every_number_of_batches.
+
+Theorem C14_accepted_log_has_a_safe_run : forall total trace, ConcTrace.accepts true total trace = true ->
+  exists x, In x (ConcTrace.after true (ConcTrace.close true [ConcTrace.linit total]) trace) /\ ConcTraceInd.lreach total x /\
+            (cons (ConcTrace.base x) = CRetOk -> received (ConcTrace.base x) = total) /\ length (buf (ConcTrace.base x)) <= cap.
+Proof. exact ConcTraceInd.accepted_log_has_a_safe_run. Qed.
+Print Assumptions C14_accepted_log_has_a_safe_run.
+
+(* the premises are met: a complete run of two batches is reachable *)
+Example C14_reach_nontrivial : exists s, ConcInd.reach 2 s /\ cons s = CRetOk /\ received s = 2.
+Proof. exact ConcInd.reach_nontrivial. Qed.
+
+(* ---- the exhaustive exploration (0..6 batches), kept as an independent check ---------------- *)
 
 (* The concurrency operator (producer, drain goroutine, channel of capacity 2)
    under Exec's consumer loop, with cancellation at any moment, for 0..6 child
@@ -41,9 +96,9 @@ Theorem C14_labelled_system_refines : forallb (ConcTrace.refinement_ok true) tot
 Proof. exact ConcTraceProofs.labelled_system_refines. Qed.
 Print Assumptions C14_labelled_system_refines.
 
-(* PARTIAL. Finite-state, bounded (0..6 batches) model of one concurrency
-   operator below Exec (tied to the real operator by trace conformance:
-   ConcTrace.accepts on logs recorded by the harness); workers, the coalesce fan-out and remote execution are
+(* PARTIAL. Model of one concurrency operator below Exec, for every number of
+   batches (tied to the real operator by trace conformance: ConcTrace.accepts on
+   logs recorded by the harness); workers, the coalesce fan-out and remote execution are
    not in the LTS, wall-clock bounds and scheduler fairness are runtime facts.
    Those are decided by the cancellation oracles (every callback index, blocking
    storage, Cancel() racing Exec, goroutine count after Close, stress loop). *)
